@@ -56,4 +56,103 @@ Section Del.
   Proof. intros t R. unfold p_deletemin. now rewrite R. Qed.
   Lemma p_deletemax_empty : forall t : pstate V, proot t = None -> p_deletemax t = ROk (t, None).
   Proof. intros t R. unfold p_deletemax. now rewrite R. Qed.
+
+  (** ** the four pointers of remove, in terms of the unfolded tree (all three descents) *)
+  Definition dside (d : dir) (b : Z) : bool :=
+    match d with ByKey k => PatInv.pbit k b | GoLeft => false | GoRight => true end.
+
+  Lemma step_dir_side : forall d (x : pnode), 1 <= n_bp x -> step_dir d x = child x (dside d (n_bp x)).
+  Proof.
+    intros d x H. destruct d; cbn [step_dir dside child]; auto. rewrite kbit_pos by lia. reflexivity.
+  Qed.
+
+  (** the thread the descent ends at *)
+  Fixpoint tsd (h : heap) (d : dir) (T : ptree) : nat :=
+    match T with
+    | PLeaf i => i
+    | PNode i l r => if dside d (nbp h i) then tsd h d r else tsd h d l
+    end.
+
+  Lemma tsd_bykey : forall (h : heap) k T, tsd h (ByKey k) T = tsearch h k T.
+  Proof. induction T as [i|i l IHl r IHr]; simpl; auto. now rewrite IHl, IHr. Qed.
+
+  (** [r]: the last inner node on the path (the referrer); [rp]: the node before it *)
+  Fixpoint referrer (h : heap) (d : dir) (T : ptree) (rp r : nat) : nat * nat :=
+    match T with
+    | PLeaf _ => (rp, r)
+    | PNode i l r' => referrer h d (if dside d (nbp h i) then r' else l) r i
+    end.
+
+  (** [np]: the node before the first occurrence of [n] on the path *)
+  Fixpoint nparent (h : heap) (d : dir) (n : nat) (T : ptree) (np : nat) : nat :=
+    match T with
+    | PLeaf _ => np
+    | PNode i l r' => if Nat.eqb i n then np else nparent h d n (if dside d (nbp h i) then r' else l) i
+    end.
+
+  Lemma del_loop1_path : forall f (h : heap) d pbp rp r rn c T g,
+    unfold f h pbp c = Some T -> nth_error h r = Some rn -> n_bp rn = pbp -> 0 <= pbp -> (f <= g)%nat ->
+    del_loop1 g h d rp r c = ROk (referrer h d T rp r, tsd h d T).
+  Proof.
+    induction f as [|f IH]; intros h d pbp rp r rn c T g H Hr Hb Hz Hg; simpl in H; [discriminate|].
+    destruct g as [|g]; [lia|]. cbn [del_loop1]. unfold hget at 1. rewrite Hr. cbn [rbind].
+    destruct (nth_error h c) as [cn|] eqn:E; [|discriminate]. unfold hget at 1. rewrite E. cbn [rbind]. rewrite Hb.
+    rewrite Z.ltb_antisym. destruct (n_bp cn <=? pbp) eqn:LE; cbn [negb].
+    - injection H as <-. reflexivity.
+    - apply Z.leb_gt in LE.
+      destruct (n_left cn) as [l|] eqn:EL; [|discriminate]. destruct (n_right cn) as [r'|] eqn:ER; [|discriminate].
+      destruct (unfold f h (n_bp cn) l) as [tl|] eqn:El; [|discriminate].
+      destruct (unfold f h (n_bp cn) r') as [tr|] eqn:Er; [|discriminate].
+      injection H as <-. rewrite step_dir_side by lia. cbn [referrer tsd].
+      unfold nbp. rewrite E. unfold child. destruct (dside d (n_bp cn)).
+      + rewrite ER. cbn [link rbind]. apply (IH h d (n_bp cn) r c cn r' tr g); auto; lia.
+      + rewrite EL. cbn [link rbind]. apply (IH h d (n_bp cn) r c cn l tl g); auto; lia.
+  Qed.
+
+  Lemma del_loop2_path : forall f (h : heap) d pbp c T g np,
+    unfold f h pbp c = Some T -> 0 <= pbp -> (f <= g)%nat ->
+    del_loop2 g h d (tsd h d T) np c = ROk (nparent h d (tsd h d T) T np).
+  Proof.
+    induction f as [|f IH]; intros h d pbp c T g np H Hz Hg; simpl in H; [discriminate|].
+    destruct g as [|g]; [lia|]. cbn [del_loop2].
+    destruct (nth_error h c) as [cn|] eqn:E; [|discriminate].
+    destruct (n_bp cn <=? pbp) eqn:LE.
+    - injection H as <-. simpl. now rewrite Nat.eqb_refl.
+    - apply Z.leb_gt in LE.
+      destruct (n_left cn) as [l|] eqn:EL; [|discriminate]. destruct (n_right cn) as [r'|] eqn:ER; [|discriminate].
+      destruct (unfold f h (n_bp cn) l) as [tl|] eqn:El; [|discriminate].
+      destruct (unfold f h (n_bp cn) r') as [tr|] eqn:Er; [|discriminate].
+      injection H as <-. cbn [nparent tsd].
+      assert (NB : nbp h c = n_bp cn) by (unfold nbp; now rewrite E). rewrite !NB.
+      destruct (Nat.eqb c _) eqn:EQ; [reflexivity|].
+      unfold hget. rewrite E. cbn [rbind]. rewrite step_dir_side by lia. unfold child.
+      destruct (dside d (n_bp cn)).
+      + rewrite ER. cbn [link rbind]. apply (IH h d (n_bp cn) r' tr g c); auto; lia.
+      + rewrite EL. cbn [link rbind]. apply (IH h d (n_bp cn) l tl g c); auto; lia.
+  Qed.
+
+  (** in a checked state the descents of Delete / DeleteMin / DeleteMax hand exactly these four
+      pointers to remove: target [n], referrer [r], its predecessor [rp], and [n]'s predecessor [np] *)
+  Theorem p_delete_dir_pointers : forall (t : pstate V) r0 rn c T d check,
+    pinv t r0 rn c T ->
+    p_delete_dir t r0 d check =
+      (let h := pheap t in
+       let n := tsd h d T in
+       let (rp, r) := referrer h d T r0 r0 in
+       nn <- hget h n ;;
+       if check nn then
+         t' <- p_remove t r0 n r rp (nparent h d n T r0) ;; ROk (t', Some (n_key nn, n_val nn))
+       else ROk (t, None)).
+  Proof.
+    intros t r0 rn c T d check I.
+    destruct I as [Proot Prn Pleft Pright Pbp Punf Pgood Psorted Psize Pcont Psingle].
+    unfold p_delete_dir. unfold hget at 1. rewrite Prn. cbn [rbind]. rewrite Pleft. cbn [link rbind].
+    rewrite (del_loop1_path _ (pheap t) d 0 r0 r0 rn c T (fuel_of (pheap t)) Punf Prn Pbp)
+      by (unfold fuel_of; lia).
+    cbn [rbind]. destruct (referrer (pheap t) d T r0 r0) as [rp r]. cbv zeta.
+    destruct (hget (pheap t) (tsd (pheap t) d T)) as [nn| |]; cbn [rbind]; auto.
+    destruct (check nn); auto.
+    rewrite (del_loop2_path _ (pheap t) d 0 c T (fuel_of (pheap t)) r0 Punf) by (unfold fuel_of; lia).
+    reflexivity.
+  Qed.
 End Del.
